@@ -146,7 +146,7 @@ CAccepted == IF TLCGet("stats").diameter = N + 1 THEN TRUE
 SilentPrices == {1, MaxPrice, MaxPrice + 1}
 
 Silent == \/ \E o \in Ops : CallStart(o)
-          \/ \E o \in Ops, r \in {"ok", "err", "yes", "no", "notfound"} \cup FoundStates, p \in SilentPrices \cup {0} : Complete(o, r, p)
+          \/ \E o \in Ops, r \in {"ok", "err", "errbid", "yes", "no", "notfound"} \cup FoundStates, p \in SilentPrices \cup {0} \cup ErrKinds \cup NfKinds : Complete(o, r, p)
           \/ \E k \in Kinds : Deliver(k)
           \/ Shutdown
           \/ FireTimer
